@@ -168,6 +168,14 @@ def _small_c08(args):
                     route = ['operator', 'function', 'iop', 'function'][k % 4]
                     out.append(x_arith.observe_arith(fx, np, [pid], op, tx, ty, cxs, cys, route=route, sizing=pol, method=method,
                                                      xmodes=m, ymodes=MODES[(k + 5) % 10], dirty=('intval' if (k % 3 == 0 and (tx[2] <= 0 or ty[2] <= 0)) else False)))
+        if tx[2] <= 0 and ty[2] <= 0:
+            # scalar operands that are ELEMENTS of arrays built by value from integers (their codes are NumPy integer scalars)
+            lx_, hx_ = rng_of(tx); ly_, hy_ = rng_of(ty)
+            for (a_, b_) in ((lx_, hy_), (hx_, ly_), (lx_, ly_), (hx_, hy_)):
+                for method in ('raw', 'repr'):
+                    k += 1
+                    out.append(x_arith.observe_arith(fx, np, [pid], op, tx, ty, [a_], [b_], route=['operator', 'function'][k % 2], sizing=('same' if (k % 2 and nint(tx) + tx[2] + int(tx[0] or ty[0]) >= 1) else 'optimal'),
+                                                     method=method, xmodes=MODES[k % 10], ymodes=MODES[(k + 5) % 10], scalar=True, dirty='intval-element'))
         for tf in _targets(tx, ty, idx):
             for target in ('out', 'out_like'):
                 for m in (MODES if tier == 'thorough' else [MODES[(k + j) % 10] for j in (1, 6)]):
